@@ -111,7 +111,7 @@ def open_all(srv, p, texts=None):
 
 def nav_observe(mos, p):
     """definition / references / highlight at every occurrence -> obs rows (positions mapped to oids)"""
-    srv = L.Server(mos, p["dir"])
+    srv = L.Server(mos, p["dir"], timeout=10.0)
     srv.initialize()
     open_all(srv, p)
     obs, raw = [], {}
